@@ -16,8 +16,11 @@ the generators produce:
 The definitions of `==`, the partial order, truthiness, hashing, `isinstance` are those of
 `PyVal.lean` (C08's reference semantics), extended to the three scalar types; `Outcome`,
 `Err`, `Cmp`, `Klass` are re-used from there.
-Not in the universe: NaN and the infinities (no generator produces them from finite
-bounds below 8.9e307), opaque objects.
+`inf neg` is the float `+inf` (`neg = false`) or `-inf`: `math.nextafter` at the largest double
+yields it, so `generate_true(gt_p(sys.float_info.max))` produces it.  It is larger (smaller) than
+every member of the real numeric tower, whatever its magnitude (CPython compares an int with an
+infinite float by sign), equal only to itself, truthy, hashable, an instance of `float`.
+Not in the universe: NaN, opaque objects.
 -/
 import PyPred.Model.PyVal
 
@@ -42,6 +45,7 @@ inductive GVal where
   | dt (us : Int)
   | uuid (n : Nat)
   | cplx (re im : Int)
+  | inf (neg : Bool)
   deriving Inhabited, Repr
 
 namespace GVal
@@ -53,10 +57,23 @@ def num : GVal → Option Int
   | .flt k => some k
   | _ => Option.none
 
+/-- A finite number `a` (float units) against `y`. -/
+def cmpNum (a : Int) (y : GVal) : Option Cmp :=
+  match y with
+  | .inf n => some (if n then .gt else .lt)
+  | y => (num y).map (cmpInt a)
+
+/-- The infinity `inf a` against `y`. -/
+def cmpInf (a : Bool) (y : GVal) : Option Cmp :=
+  match y with
+  | .inf b => some (if a == b then .eq else if a then .lt else .gt)
+  | y => (num y).map (fun _ => if a then .lt else .gt)
+
 mutual
 /-- Python `x == y`. -/
 def pyEq : GVal → GVal → Bool
   | .none, .none => true
+  | .inf a, .inf b => a == b
   | .str a, .str b => a == b
   | .list xs, .list ys => eqL xs ys
   | .tuple xs, .tuple ys => eqL xs ys
@@ -96,9 +113,10 @@ def pyCmp : GVal → GVal → Option Cmp
   | .set xs, .set ys => some (cmpIncl (subL xs ys) (supL xs ys))
   | .dt a, .dt b => some (cmpInt a b)
   | .uuid a, .uuid b => some (cmpInt a b)
-  | .bool a, y => (num y).map (cmpInt (if a then scale else 0))
-  | .int a, y => (num y).map (cmpInt (a * scale))
-  | .flt a, y => (num y).map (cmpInt a)
+  | .bool a, y => cmpNum (if a then scale else 0) y
+  | .int a, y => cmpNum (a * scale) y
+  | .flt a, y => cmpNum a y
+  | .inf a, y => cmpInf a y
   | _, _ => Option.none
 termination_by structural x => x
 def cmpL : List GVal → List GVal → Option Cmp
@@ -128,6 +146,7 @@ def truthy : GVal → Bool
   | .dt _ => true
   | .uuid _ => true
   | .cplx a b => a != 0 || b != 0
+  | .inf _ => true
 
 def itemKey : GVal → GVal
   | .tuple (k :: _) => k
@@ -177,6 +196,7 @@ def isInst : Klass → GVal → Bool
   | .int, .bool _ => true
   | .int, .int _ => true
   | .float, .flt _ => true
+  | .float, .inf _ => true
   | .str, .str _ => true
   | .list, .list _ => true
   | .tuple, .tuple _ => true
@@ -204,6 +224,7 @@ def isInst : Klass → GVal → Bool
   | .hashable, .dt _ => true
   | .hashable, .uuid _ => true
   | .hashable, .cplx _ _ => true
+  | .hashable, .inf _ => true
   | _, _ => false
 
 mutual
@@ -222,6 +243,7 @@ def key : GVal → List Int
   | .dt a => [9, a]
   | .uuid n => [10, (n : Int)]
   | .cplx a b => [11, a, b]
+  | .inf n => [12, if n then 0 else 1]
 termination_by structural x => x
 def keyL : List GVal → List Int
   | [] => []
